@@ -4,7 +4,7 @@
 from types import SimpleNamespace
 
 from symex.api import Case
-from harness.svcommon import make_data, build_sv_impl, with_krylov_stub, h_ref_step
+from harness.svcommon import make_data, build_sv_impl, with_krylov_stub, h_ref_step, sv_stub_config
 
 PROPERTY = "C01"
 
@@ -31,7 +31,7 @@ def sv_steps(n, steps, slm, with_init, phase=True):
             svs = env.mod("emu_sv.state_vector")
             init = svs.StateVector(env.tensor_cplx("psi0", (2**n,)), gpu=False)
             init_before = init.data.clone()
-        cfg = SimpleNamespace(gpu=False, initial_state=init, krylov_tolerance=1e-8, observables=[])
+        cfg = sv_stub_config(initial_state=init)
 
         def run(rec):
             impl = build_sv_impl(env, data, cfg)
